@@ -27,7 +27,7 @@ QuickConfigs ==
     { c \in AllCfg({0, -3}, {5, 7}, {1, 2}, {4}, {1, 2, 4}) : c.hmin <= c.h0 /\ c.h0 <= c.hmax }
 
 ThoroughConfigs ==
-    { c \in AllCfg({0, -3, 2}, {5, 8, 12}, {1, 2, 3}, {4, 6, 16}, {1, 2, 3, 4, 6, 16}) :
+    { c \in AllCfg({0, -3}, {5, 8}, {1, 2, 3}, {4, 16}, {1, 2, 3, 4, 16}) :
         c.hmin <= c.h0 /\ c.h0 <= c.hmax }
 
 \* behaviours replayed into the real driver: initial step at one of the two limits (the two
